@@ -714,7 +714,9 @@ class System:
                 for name in self.layout:
                     frame.append(self.regs[k + 1][t].vars[name] == self.regs[k][t].vars[name])
             got = z3.And(a.qlen != 0, a.recv_alive, z3.Not(a.consumer_none))
-            none = z3.And(a.qlen == 0, a.senders == 0, a.recv_alive, z3.Not(a.consumer_none))
+            # a receive that can give up (recv_timeout / try_recv) reports the end of the stream whenever the queue is empty
+            gives_up = z3.BoolVal(bool(self.cfg.get('consumer_may_time_out')))
+            none = z3.And(a.qlen == 0, z3.Or(a.senders == 0, gives_up), a.recv_alive, z3.Not(a.consumer_none))
             recv_upd = [b.qlen == a.qlen - 1, b.rcount == a.rcount + 1, b.consumer_none == a.consumer_none]
             for i in range(len(a.q) - 1):
                 recv_upd.append(b.q[i] == a.q[i + 1])
@@ -757,7 +759,8 @@ class System:
 
     def consumer_enabled(self, k):
         a = self.shared[k]
-        return z3.And(a.recv_alive, z3.Not(a.consumer_none), z3.Or(a.qlen != 0, a.senders == 0))
+        return z3.And(a.recv_alive, z3.Not(a.consumer_none),
+                      z3.Or(a.qlen != 0, a.senders == 0, z3.BoolVal(bool(self.cfg.get('consumer_may_time_out')))))
 
     def stuck(self, k, need_consumer=True):
         """No actor can make progress although the protocol is not finished."""
